@@ -682,3 +682,15 @@ Proof.
   pose proof (finish_inv mt es Hmt al st sts G Hf) as F.
   eapply Forall_impl; [|exact F]. intros toks. apply chain_adjacent.
 Qed.
+
+(* the same theorem, as an inductive chain (used by Proofs.LayoutDeep) *)
+Theorem parse_chain mt cf es al asc line col s st sts :
+  mt_ok mt ->
+  parse_st mt cf es asc line col s = Ok st -> s_ev st = false ->
+  finish mt es al st = Ok sts ->
+  Forall chain sts.
+Proof.
+  intros Hmt Hp Hev Hf. unfold parse_st in Hp.
+  pose proof (run_inv mt cf es Hmt s _ _ (init_good line col asc) Hp) as [E|G]; [congruence|].
+  exact (finish_inv mt es Hmt al st sts G Hf).
+Qed.
